@@ -4,7 +4,7 @@ and become the model's SaveOps; TLC checks OldOrNew / AlwaysLoadable / AckedThen
 and inside any of them.  Binding: fault enumeration on the real code in a child process (RLIMIT_FSIZE = k for every k,
 SIGKILL at verifhook points and, through strace fault injection, at the save's own system calls) followed by a real
 restart; and gated replay of shutdown at every saver phase (drivers/c20)."""
-import json, os, re, subprocess
+import json, os, re, subprocess, collections
 from concurrent.futures import ThreadPoolExecutor
 import vlib
 from props import common
@@ -73,6 +73,8 @@ def save_ops(binary, work):
             names = re.findall(r'"([^"]+)"', args)
             if len(names) == 2 and names[1] == store and names[0].startswith(d):
                 ops.append("rename_tmp_path")
+            elif len(names) == 2 and names[0] == store:
+                ops.append("rename_path_away")
             elif any(n.startswith(d) for n in names):
                 unknown.append(line.strip())
         elif sc in ("unlink", "unlinkat", "truncate", "link", "linkat"):
@@ -81,7 +83,7 @@ def save_ops(binary, work):
                 ops.append("unlink_path" if sc.startswith("unlink") else "unknown_" + sc)
                 if not sc.startswith("unlink"):
                     unknown.append(line.strip())
-    syscalls = sorted(set(re.findall(r"^\d+\s+(\w+)\(", open(log, errors="replace").read().split("VERIF-SAVE-BEGIN")[-1], re.M)))
+    syscalls = collections.Counter(re.findall(r"^\d+\s+(\w+)\(", open(log, errors="replace").read(), re.M))
     return ops, unknown, syscalls
 
 
@@ -103,7 +105,7 @@ def one_fault(binary, work, idx, keylen, old, op, new, fsize, killat, sysinject)
         args += ["-killat", killat]
     st = None
     if sysinject:
-        st = ["-e", "trace=" + sysinject, "-e", "inject=%s:signal=KILL:when=1" % sysinject, "-o", "/dev/null"]
+        st = ["-e", "trace=" + sysinject[0], "-e", "inject=%s:signal=KILL:when=%d" % tuple(sysinject), "-o", "/dev/null"]
     p = child(binary, args, strace=st)
     r = restart(binary, d, keylen)
     names = sorted(os.listdir(d))
@@ -184,7 +186,8 @@ def run(tier, seed, replay):
         v.notes.append("file operations on the store directory that the model does not know: %s" % unknown[:3])
     if not ops:
         raise vlib.Broken("strace shows no file operation of the save")
-    modelled = [o for o in ops if o in ("trunc_path", "write_path", "creat_tmp", "write_tmp", "sync_tmp", "chmod_tmp", "rename_tmp_path", "unlink_path")]
+    modelled = [o for o in ops if o in ("trunc_path", "write_path", "creat_tmp", "write_tmp", "sync_tmp", "chmod_tmp", "rename_tmp_path", "unlink_path",
+                                        "rename_path_away")]
 
     # (2) TLC: a crash or a write error between/inside any of these operations; shutdown at every saver phase
     cfg = dict(BASE)
@@ -199,7 +202,9 @@ def run(tier, seed, replay):
     stores = [({}, "add:A=k1", {"A": "k1"}), ({"A": "k1"}, "add:B=k2", {"A": "k1", "B": "k2"}), ({"A": "k1", "B": "k2"}, "del:A", {"B": "k2"}),
               ({"A": "k1", "B": "k2", "C": "k3"}, "upd:B=k4", {"A": "k1", "B": "k4", "C": "k3"}), ({"A": "k1"}, "del:A", {})]
     hookpoints = ["cred.saver.beforeSave", "cred.save.beforeWrite", "cred.save.afterWrite", "cred.save.beforeRename", "cred.save.afterRename", "cred.saver.afterSave"]
-    killsys = [s for s in ("fchmod", "fsync", "fdatasync", "renameat", "rename", "renameat2", "unlinkat", "ftruncate") if s in syscalls]
+    # SIGKILL on entering the i-th invocation of each of these system calls (every invocation the save makes)
+    killsys = [(s, i) for s in ("fchmod", "fsync", "fdatasync", "renameat", "rename", "renameat2", "unlinkat", "unlink", "ftruncate", "link", "linkat")
+               for i in range(1, min(syscalls.get(s, 0), 6) + 1)]
     for si, (old, op, new) in enumerate(stores):
         for keylen in ((16, 32) if big or si == 1 else (32,)):
             doclen = 4 + sum(12 + (24 if keylen == 16 else 44) for _ in new) + 2
@@ -218,7 +223,7 @@ def run(tier, seed, replay):
         results = [f.result() for f in futs]
     distinct = set()
     for (case, verdict), pl in zip(results, plans):
-        distinct.add((json.dumps(case["old"], sort_keys=True), case["op"], case["fsize"], case["killat"], case["kill_at_syscall"], case["keylen"]))
+        distinct.add((json.dumps(case["old"], sort_keys=True), case["op"], case["fsize"], case["killat"], json.dumps(case["kill_at_syscall"]), case["keylen"]))
         if verdict:
             case["new"] = pl[3]
             v.violation(verdict[0], verdict[1], case)
